@@ -18,6 +18,7 @@ RULE = ("case = one random alias configuration: 2-3 fields (identity / converted
         "are fed to from_dict (Annotated metadata that is not an Alias mixed in; optionally an init=False member whose name is a candidate key), each key carrying a distinct value. Oracle KEYMODEL: which key each field reads, "
         "MissingField for the first unreadable required field, ExtraKeysError with exactly the unexpected keys. "
         "distinct_nontrivial = distinct (configuration, key subset) pairs.")
+RULE += " Additions: key-rewriting __pre_deserialize__ under forbid_extra_keys; plain Config classes inheriting from each other; non-string stranger keys."
 ASSUMPTIONS = ["exhaustive over key subsets per configuration; configurations are random"]
 BUDGET_S = {"quick": 120, "thorough": 900}
 MIN_EVENTS = {"quick": {"evaluations": 100000, "agree_ok": 30000, "agree_extra": 20000, "agree_missing": 5000},
